@@ -176,6 +176,18 @@ def main(pid, tier):
         else:
             files = gg.gen_tree(rng, small=(pid == "C14"))
         cfg = gg.gen_cfg(rng, allow_transform=(pid in ("C01", "C03", "C14")))
+        if pid == "C14" and k % 3 == 0:
+            # names that every output format has to escape in its own way: backslash, line feed, a byte that is not UTF-8, comma, double quote
+            for f_, nm in zip(rng.sample(files, min(len(files), 5)), ["b\\s", "n\nl", "x\udcff", "c,d", 'q"r']):
+                f_["name"] = nm + str(f_["id"])
+        if pid == "C03" and k % 8 == 0 and not cfg["symlinks"]:
+            # size bounds placed exactly on lengths that occur in the tree (both bounds are inclusive)
+            lens_ = sorted({f_["len"] for f_ in files if f_["len"] >= 1})
+            if lens_:
+                lo = rng.choice(lens_)
+                cfg["max_size"] = rng.choice([l_ for l_ in lens_ if l_ >= lo])
+                if rng.random() < 0.5:
+                    cfg["min_size"] = lo
         if pid == "C06":
             if not cfg["symlinks"]:
                 cfg["matchLinks"] = rng.random() < 0.45
